@@ -478,6 +478,12 @@ theorem step_frame {s s' : State} {op : Op} (h : step s op = .ok s') :
     rw [hm0] at hm; cases hm
     obtain ⟨-, -, ⟨e0, he0, hlt⟩, -, -, rfl⟩ := updateEnd_ok hf
     exact ⟨_, rfl, fun _ => ⟨rfl, rfl⟩, fun e he hle => by rw [he0] at he; cases he; omega⟩
+  | minterEnv price perAddr mintable pp pw =>
+    obtain ⟨m0, m', hm0, hf, rfl⟩ := withMinter_ok h
+    refine ⟨Nat.le_refl _, fun m hm => ?_⟩
+    rw [hm0] at hm; cases hm
+    cases hf
+    exact ⟨_, rfl, fun _ => ⟨rfl, rfl⟩, fun e he _ => he⟩
   | setWhitelist sender k =>
     obtain ⟨m0, m', hm0, hf, rfl⟩ := withMinter_ok h
     refine ⟨Nat.le_refl _, fun m hm => ?_⟩
